@@ -4,7 +4,7 @@ use vstd::prelude::*;
 verus! {
 //@INCLUDE prelude_object.rs
 //@INCLUDE opcodes.rs
-//@INCLUDE prelude_compiler.rs except=compile_block_statement
+//@INCLUDE prelude_compiler.rs except=compile_block_statement,compile_block_value
 //@INCLUDE compiler_convert_assumed.rs
 //@INCLUDE compiler_helpers_assumed.rs
 //@INCLUDE genpost_lemmas.rs
@@ -30,6 +30,19 @@ impl Compiler {
 //@GHOST after="self.symbols.leave_scope();" proof { lemma_gen_post_same(s_end, *self); lemma_gen_post_trans(*old(self), s_end, *self, false, false); lemma_gen_post_upgrade(*old(self), *self); }
 //@LOOP 1 invariant gen_post(*old(self), *self, false), gen_inv(*self), stmts@.len() > 0, is_prefix(old(self).instructions@, self.instructions@), self.log@.len() == old(self).log@.len() + __it.index@, forall|i: int| 0 <= i < old(self).log@.len() ==> #[trigger] self.log@[i] == old(self).log@[i], __it.index@ == 0 ==> self.instructions@ == old(self).instructions@, __it.index@ > 0 ==> self.log@[old(self).log@.len() as int].start == old(self).instructions@.len() && self.log@[self.log@.len() - 1].end == self.instructions@.len(), forall|j: int| 0 <= j < __it.index@ - 1 ==> #[trigger] self.log@[old(self).log@.len() + j].end == self.log@[old(self).log@.len() + j + 1].start, sym_depth(self.symbols) == sym_depth(old(self).symbols) + 1, sym_contexts(self.symbols) == sym_contexts(old(self).symbols), sym_outer(self.symbols) == sym_outer(old(self).symbols), __it.index@ > 0 ==> self.instructions@.len() > old(self).instructions@.len(), forall|j: int| 0 <= j < __it.index@ ==> #[trigger] self.log@[old(self).log@.len() + j].what == LogWhat::S(stmts@[j]) && self.log@[old(self).log@.len() + j].depth == sym_depth(old(self).symbols) + 1 && self.log@[old(self).log@.len() + j].contexts == sym_contexts(old(self).symbols),
 //@BODY file=compiler.rs fn=compile_block_statement impl=Compiler sig="fn compile_block_statement(&mut self, stmts: &[Stmt]) -> Result<(), Error>" rules="R1;R4;R8[for s in stmts {=>for s in __it: stmts {]"
+    }
+
+    /// O11.v  compile_block_value: a block used as a VALUE leaves exactly one value - see block_value_post
+    fn compile_block_value(&mut self, stmts: &[Stmt]) -> (r: Result<(), Error>)
+        requires gen_inv(*old(self))
+        ensures
+            //@VACUITY
+            sym_wf(final(self).symbols),
+            r is Ok ==> block_value_post(*old(self), *final(self), stmts@),
+    {
+//@GHOST after="self.compile_block_statement(stmts)?;" let ghost s_blk = *self;
+//@GHOST before="Ok(())" proof { if stmts@.len() > 0 { if s_blk.last_instruction == Some(OpCode::Pop) { lemma_gen_post_remove_last(*old(self), s_blk, *self, true); } else { lemma_step_appended(s_blk, *self, 1); lemma_gen_post_trans(*old(self), s_blk, *self, true, true); assert(self.instructions@.last() == opcode_byte(OpCode::Null)); } } }
+//@BODY file=compiler.rs fn=compile_block_value impl=Compiler sig="fn compile_block_value(&mut self, stmts: &[Stmt]) -> Result<(), Error>" rules="R1;R4"
     }
 
     /// O12.5 / O02.f  Expr::Function. Layout (n0 = code length before):
